@@ -14,7 +14,9 @@ from ..rules import pC23
 ID = 'C23'
 TECHNIQUE = ('typestate fixpoint on clang CFGs (clang --analyze, debug.DumpCFG only) of an assembled Coroutine.c/AsyncGen.c translation unit, one copy '
              'of each protocol function per #if configuration; path-sensitive AST dataflow (pyflow) of the yield-site emitter; table agreement of '
-             'resume_label constants between compiler and C runtime; flow-insensitive points-to (ownership) analysis of the closure-slot allocator')
+             'resume_label constants between compiler and C runtime; flow-insensitive points-to (ownership) analysis of the closure-slot allocator; '
+             'path-sensitive typestate of gen->yieldfrom over the parsed C text of every SendEx caller (all #if variants, interprocedural entry states); push/pop pairing, '
+             'guard tables and flag/slot agreement by structural extraction')
 DECIDES = ('S1: in every function of Coroutine.c/AsyncGen.c that calls __Pyx_Coroutine_test_and_set_is_running, for every combination of the #if '
            'conditions inside it: the result of the call is branched on; the "already running" branch never releases; on the acquired branch every path '
            'to a return (or the end of the function) passes __Pyx_Coroutine_unset_is_running exactly once; no second acquire while holding; macros and '
@@ -31,9 +33,17 @@ DECIDES = ('S1: in every function of Coroutine.c/AsyncGen.c that calls __Pyx_Cor
            'C comparison of resume_label with a constant separates values that are really stored (-1 / 0 / 1..n). '
            'UNDEL: every jump to throw_here in __Pyx__Coroutine_Throw is dominated by __Pyx_Coroutine_Undelegate(gen). '
            'SLOT: in Code.ClosureTempAllocator (the closure fields that hold live temporaries across a yield) no list/dict object that is mutated in place is reachable from '
-           'more than one pool attribute (shallow copies share their elements), and the slot allocate_temp returns out of a pool list is removed from it (.pop).')
-NOT_DECIDED = ('the observable trace itself (values, StopIteration payloads, finally blocks, exception chaining) — only the run-state and resume-point '
-               'bookkeeping is decided. Rule S3 of the design (raise => error return on the same CFGs) is not armed: its 12 untriaged sites need value '
+           'more than one pool attribute (shallow copies share their elements), and the slot allocate_temp returns out of a pool list is removed from it (.pop). '
+           'DELEG: __Pyx_Coroutine_SendEx (resume of the body) is reached only with gen->yieldfrom known cleared — tested NULL or Undelegate called — on every path of every caller, every #if variant, '
+           'helpers entered in the state of their call sites. EXCSTACK: SendEx links previous_item before pushing the generator\'s exception item and pops exactly that link after the body. '
+           'TERM: the "already terminated" exit and the RETURN/ERROR classification of SendEx are taken exactly for the finished marker the generated body stores (a missing marker emission is itself reported by RL). '
+           'ITERNEXT: iternext=1 is passed exactly by the functions installed in tp_iternext. '
+           'AGRUN: every INIT->ITER transition of an asend/athrow awaitable follows the already-running test of its branch and stores ag_running_async = 1. '
+           'RESUME: generate_yield_code copies live temporaries into the closure before the return and out of it after the resume label, NULL-checks the sent value after the label, and swaps the '
+           'handled exception into the generator exactly inside an except block.')
+NOT_DECIDED = ('the observable trace itself (values, StopIteration payloads, finally blocks, exception chaining) — only the run-state, delegation and resume-point '
+               'bookkeeping is decided. Which exception is pending when close() resumes the body (GeneratorExit raised although closing the delegate failed), the set of exceptions close() '
+               'swallows, and the PEP 479 replacement emission (a single emission under a future-directive test, no structural partner) are not decided. Rule S3 of the design (raise => error return on the same CFGs) is not armed: its 12 untriaged sites need value '
                'tracking and would be a proxy today. The typestate is path-sensitive only in the test_and_set result (directly, through !/__builtin_expect/'
                '== 0, or parked in one local); a release made conditional on a second, correlated flag would be reported although correct. '
                'Configurations are enumerated per function over the atoms of its own #if lines (defined(X) and X are independent atoms); macro bodies '
@@ -71,8 +81,19 @@ MUTATIONS = [
     ('Cython/Compiler/Code.py', 'reset: self.temps_free[type] = cnames (no copy) / = self.temps_allocated.copy() / .update(self.temps_allocated) / {t: c for t, c in ...items()}', 'C23-SLOT (4 variants)'),
     ('Cython/Compiler/Code.py', 'allocate_temp: self.temps_allocated[type] = self.temps_free[type] = []', 'C23-SLOT'),
     ('Cython/Compiler/Code.py', 'allocate_temp: return self.temps_free[type][0] (read, not popped)', 'C23-SLOT return'),
+    # fourth round (rules/sC23.py; the full list with patches is in /verif/mutants/C23/)
+    ('Cython/Utility/Coroutine.c', 'Undelegate dropped in SendToDelegate / FinishDelegation / Close', 'C23-DELEG (3 variants)'),
+    ('Cython/Utility/Coroutine.c', 'SendEx: pop of tstate->exc_info dropped; previous_item link dropped', 'C23-EXCSTACK (2 variants)'),
+    ('Cython/Utility/Coroutine.c', 'SendEx: `resume_label == 0` terminated test; classification by `!= -1`', 'C23-TERM (2 variants)'),
+    ('Cython/Utility/Coroutine.c', '__Pyx_Coroutine_Send passes iternext=1', 'C23-ITERNEXT'),
+    ('Cython/Utility/AsyncGen.c', 'asend_throw without ag_running_async = 1; athrow_throw without the already-running test', 'C23-AGRUN (2 variants)'),
+    ('Cython/Compiler/ExprNodes.py', 'generate_yield_code: restore copy reversed; sent-value check dropped; SwapException under `current_except is None`', 'C23-RESUME (3 variants)'),
+    ('Cython/Compiler/Nodes.py', 'exit code without `resume_label = -1`', 'C23-RL finished-marker:missing (was ANALYSIS-ERROR)'),
+    ('Cython/Utility/Coroutine.c', 'Close: GeneratorExit raised although CloseIter failed; only GeneratorExit swallowed; Nodes: PEP 479 replacement dropped', 'MISSED (see NOT_DECIDED)'),
 ]
 PRESERVING = [
+    ('Cython/Utility/Coroutine.c', 'Close: Undelegate after Py_DECREF(yf), `yf != NULL`; AmSend: `else if (!gen->yieldfrom) SendEx`; SendEx: `resume_label < 0`', 'silent'),
+    ('Cython/Compiler/ExprNodes.py', 'restore loop with renamed locals; AsyncGen.c: running flag stored before the state', 'silent'),
     ('Cython/Utility/Coroutine.c', '__Pyx_Generator_Next: `char busy = test_and_set(gen); if (unlikely(busy != 0))`', 'silent'),
     ('Cython/Utility/Coroutine.c', 'new macro __Pyx_Coroutine_Release(g) and new helper function __Pyx_Coroutine_Done(g) used instead of unset in Throw / GetInlinedResult (argument spelled (__pyx_CoroutineObject*)self)', 'silent'),
     ('Cython/Utility/Coroutine.c', '__Pyx_Coroutine_Close: three returns of the error arm rewritten to `goto done; done: unset; return result;`', 'silent'),
@@ -90,4 +111,5 @@ PRESERVING = [
 def run(ctx):
     from ..rules import undeleg, sC23
     # the quick tier already runs the clang CFG version (about 1 s for the clang call); the thorough tier is the same analysis
-    return [pC23.rule_S1(ctx), pC23.rule_S1b(ctx), pC23.rule_S1c(ctx), pC23.rule_YL(ctx), pC23.rule_RL(ctx), undeleg.rule_undelegate(ctx), sC23.rule_slots(ctx)]
+    return [pC23.rule_S1(ctx), pC23.rule_S1b(ctx), pC23.rule_S1c(ctx), pC23.rule_YL(ctx), pC23.rule_RL(ctx), undeleg.rule_undelegate(ctx), sC23.rule_slots(ctx),
+            sC23.rule_deleg(ctx), sC23.rule_excstack(ctx), sC23.rule_term(ctx), sC23.rule_iternext(ctx), sC23.rule_agrun(ctx), sC23.rule_resume(ctx)]
